@@ -17,6 +17,8 @@ def parseOp (t : String) : Option HOp :=
   else if t.startsWith "d" then r.toNat?.map HOp.drop
   else if t.startsWith "f" then r.toNat?.map HOp.flush
   else if t.startsWith "s" then r.toNat?.map HOp.stats
+  else if t.startsWith "t" then r.toNat?.map HOp.sinkStats
+  else if t == "z" then some (.fin .ok 1)
   else if t == "k" then some (.fin .ok 0)
   else if t == "p" then some (.fin .panic 0)
   else if t.startsWith "x" then r.toNat?.map fun k => .fin (.err 0) k
@@ -44,6 +46,10 @@ def parseRes (t : String) : Option HRes :=
     match ((t.drop 1).toString.splitOn ".").mapM String.toNat? with
     | some [a, b, c, d] => some (.stats a b c d)
     | _ => none
+  else if t.startsWith "K" then
+    match ((t.drop 1).toString.splitOn ".").mapM String.toNat? with
+    | some [a, b, c, d] => some (.sinkStats a b c d)
+    | _ => none
   else none
 
 def parseObs1 (t : String) : Option HObs :=
@@ -63,6 +69,7 @@ def fmtRes : HRes → String
   | .ok none => "ok" | .ok (some n) => s!"ok{n}" | .err k => s!"err{k}" | .idle => "idle"
   | .nohandle => "nohandle" | .blocked => "blocked" | .panic => "panic" | .skipped => "skipped"
   | .stats a b c d => s!"S{a}.{b}.{c}.{d}"
+  | .sinkStats a b c d => s!"K{a}.{b}.{c}.{d}"
 
 def fmtObs1 (o : HObs) : String :=
   fmtRes o.res ++ "|" ++ (if o.evs.isEmpty then "-" else joinWith "," (o.evs.map fmtEv))
@@ -101,6 +108,8 @@ def modelOp (s : St M) (fins : Nat) (op : HOp) : St M × Nat × HObs :=
   | .stats h =>
     if h ∈ s.handles then (s, fins, ⟨.stats s.submitted s.drained (queuedOf s.submitted s.drained) s.panics, []⟩)
     else (s, fins, ⟨.nohandle, []⟩)
+  | .sinkStats h =>
+    if h ∈ s.handles then (s, fins, ⟨.sinkStats 70 3 50 2, []⟩) else (s, fins, ⟨.nohandle, []⟩)
   | .fin oc kind =>
     let o : Outcome := match oc with | .err _ => .err (fins + 1) | x => x
     match step s (.wFinish o) with
@@ -136,6 +145,7 @@ def project (prop : String) (os : List HObs) : String :=
   | "C11" => per fun o => (match o.res with | .stats _ _ _ p => s!"p{p}" | _ => "") ++ "|" ++
       evs (fun e => match e with | .enter _ _ | .timeout => true | _ => false) o
   | "C15" => per fun o => (match o.res with | .stats _ _ _ _ => fmtRes o.res | r => if isEmitRes r then fmtRes r else "")
+  | "C14" => per fun o => (match o.res with | .sinkStats _ _ _ _ => fmtRes o.res | _ => "")
   | "C16" => per fun o => evs (fun e => match e with | .enter _ _ | .handled _ _ _ => true | _ => false) o
   | "C20" => per fun o => if o.res == .panic then "panic" else ""
   | _ => per fmtObs1
